@@ -29,7 +29,13 @@ pub fn observe(p: &Program, json: Option<&JsonVariant>) -> Observed {
         decoy.defs.reverse();
         let _ = runner::generate(&decoy.render_sdl(), ext, &text, &p.opts);
     }
-    let oc = runner::generate(&schema_text, ext, &text, &p.opts);
+    observe_text(p, &schema_text, ext)
+}
+
+/// the same observation on a schema TEXT given by the caller (renderings the AST does not express)
+pub fn observe_text(p: &Program, schema_text: &str, ext: &str) -> Observed {
+    let text = p.doc.render();
+    let oc = runner::generate(schema_text, ext, &text, &p.opts);
     match &oc {
         Outcome::Ok(ts) => match runner::modules(&oc) {
             Ok(mut ms) => {
